@@ -13,6 +13,8 @@ TRUSTED_EXTRA = []
 
 D = "d1"
 F = "d2"
+# with a role-name matching function (regex) registered, the tenant names themselves must not leak into each other:
+# re.match("d1", "d10") succeeds, so d10 is the observed tenant and d1 the foreign one in that stream
 
 
 def scoped_probe(cfg, e):
@@ -47,6 +49,19 @@ def scoped_probe(cfg, e):
     except Exception as ex:  # noqa
         leaks.append(f"scoped query raised {type(ex).__name__}: {ex}")
     out["leaks"] = leaks
+    # the answers of the domain-scoped queries themselves: foreign-only calls must not change them either
+    scoped = {}
+    try:
+        for u in ("alice", "bob", "admin"):
+            scoped[f"implicit_roles:{u}"] = sorted(e.get_implicit_roles_for_user(u, D))
+            scoped[f"implicit_perms:{u}"] = sorted(map(tuple, e.get_implicit_permissions_for_user(u, D)))
+            scoped[f"perms:{u}"] = sorted(map(tuple, e.get_permissions_for_user_in_domain(u, D)))
+        scoped["all_roles"] = sorted(e.get_all_roles_by_domain(D))
+        for res_ in ("data1", "data2"):
+            scoped[f"implicit_users_for_resource:{res_}"] = sorted(map(tuple, e.get_implicit_users_for_resource_by_domain(res_, D)))
+    except Exception as ex:  # noqa
+        scoped["error"] = f"{type(ex).__name__}: {ex}"
+    out["scoped"] = scoped
     return out
 
 
@@ -73,6 +88,7 @@ def judge_factory():
             pass
         idx = [k for k, q in enumerate(queries) if in_D(q)]
         cur = [rec["answers"][k] for k in idx]
+        scoped_now = rec.get("extra", {}).get("scoped", {})
         marker = case.get("foreign_from")
         # the history = prefix (anything) + foreign-only suffix; the snapshot is taken at the last prefix step
         fstart = hist.index(("mark",)) if ("mark",) in hist else None
@@ -81,6 +97,21 @@ def judge_factory():
             fstart = cfg.tag
         if i == fstart - 1:
             snap[key] = cur
+            snap[(key, "scoped")] = scoped_now
+        elif i >= fstart and (key, "scoped") in snap and scoped_now != snap[(key, "scoped")] and cur == snap.get(key):
+            old = snap[(key, "scoped")]
+            k = next(k for k in scoped_now if scoped_now.get(k) != old.get(k))
+            res.violation(
+                {
+                    "signature": f"C05:frame-scoped:{k.split(':')[0]}",
+                    "what": f"domain model: the foreign-only call {list(op)} changed the domain-scoped query {k} for {D} from {old.get(k)} to {scoped_now.get(k)}",
+                    "case": case,
+                    "expected": str(old.get(k)),
+                    "observed": str(scoped_now.get(k)),
+                    "model_text": ec.TEXT[cfg.text],
+                }
+            )
+            ok = False
         elif i >= fstart and key in snap and cur != snap[key]:
             k = next(j for j, (a, b) in enumerate(zip(cur, snap[key])) if a != b)
             q = queries[idx[k]]
@@ -118,16 +149,44 @@ def gen(ctx, deep):
                 ("removefiltered", "g", 2, [F]), ("removefiltered", "g", 0, ["alice", "", F]), ("removefiltered", "g", 0, ["", "admin", F]),
                 ("removefiltered", "p", 1, [F]), ("removefiltered", "p", 0, ["admin", F]),
                 ("update", PF[0], PF[1]), ("update", PF[0], ["admin", F, "data9", "read"]),
-                ("delete_roles_for_user_in_domain", "alice", "admin", F)]
+                ("delete_roles_for_user_in_domain", "alice", "admin", F),
+                # names that are plain subjects in D become role names elsewhere
+                ("add", "g", ["bob", "alice", F]), ("remove", "g", ["bob", "alice", F]), ("addmany", "g", [["admin", "alice", F], ["bob", "alice", F]])]
     prefix_ops = [("add", "g", r) for r in GD + GF] + [("add", "p", r) for r in PD + PF] + [("remove", "g", GD[0]), ("addmany", "g", [GD[0], GF[0]])]
-    inits = [{"p": PD + PF, "g": GD + GF, "g2": []}, {"p": PD, "g": GD, "g2": []}, {"p": PF[:1], "g": GF[:2] + GD[:1], "g2": []}, {"p": [], "g": [], "g2": []}]
+    inits = [{"p": PD + PF, "g": GD + GF, "g2": []}, {"p": PF + PD, "g": GF[1:] + GD, "g2": []}, {"p": PD, "g": GD, "g2": []}, {"p": PF[:1], "g": GF[:2] + GD[:1], "g2": []}, {"p": [], "g": [], "g2": []}]
     jobs = []
 
+    variants = [("dom", None), ("dom2", None), ("dom", "regex")]
+
     def mk(init, prefix, suffix):
+        text, matchfn = variants[mk.n % 3] if mk.n % 5 == 0 or len(suffix) <= 1 and mk.n % 2 == 0 else variants[0]
+        mk.n += 1
+        if (text, matchfn) != ("dom", None):
+            mk2(init, prefix, suffix, text, matchfn)
         cfg = ec.Config("dom", adapter=True, watcher=None, initial=init)
         cfg.tag = len(prefix) + 1  # index of the first foreign op (after the no-op probe step)
         # a harmless first step makes sure a snapshot step exists even with an empty prefix: has-no-effect removal
         jobs.append((cfg, prefix + [("remove", "p", ["nobody", F, "x", "y"])] + suffix))
+
+    mk.n = 0
+
+    def ren(x):
+        # with the regex role-matching function the foreign tenant is called "d": re.match("d", "d1") succeeds, so a
+        # confusion of role-name matching with domain matching would let tenant "d" leak into tenant "d1"
+        if isinstance(x, str):
+            return "d" if x == F else x
+        if isinstance(x, (list, tuple)):
+            return type(x)(ren(y) for y in x)
+        if isinstance(x, dict):
+            return {k: ren(v) for k, v in x.items()}
+        return x
+
+    def mk2(init, prefix, suffix, text, matchfn):
+        if matchfn:
+            init, prefix, suffix = ren(init), ren(prefix), ren(suffix)
+        cfg = ec.Config("dom", adapter=True, watcher=None, initial=init, text=text, matchfn=matchfn)
+        cfg.tag = len(prefix) + 1
+        jobs.append((cfg, prefix + [("remove", "p", ["nobody", "d" if matchfn else F, "x", "y"])] + suffix))
 
     for init in inits:
         for a in foreign:
@@ -168,8 +227,8 @@ def replay(obj):
     cfg = ec.Config(c["shape"], adapter=c["adapter"], watcher=c["watcher"], initial=c["initial"])
     hist = [tuple(o) for o in case["history"]]
     # the foreign suffix starts after the marker removal of the "nobody" rule
-    marker = ("remove", "p", ["nobody", F, "x", "y"])
-    cfg.tag = hist.index(marker) + 1 if marker in hist else 0
+    cfg = ec.Config(c["shape"], adapter=c["adapter"], watcher=c["watcher"], initial=c["initial"], text=c.get("text"), matchfn=c.get("matchfn"))
+    cfg.tag = next((k + 1 for k, o in enumerate(hist) if o[0] == "remove" and o[1] == "p" and o[2][0] == "nobody"), 0)
     r = common.Result()
     j = judge_factory()
     qs = ec.query_set(cfg)
